@@ -12,7 +12,7 @@
                 unwrap/expect on stream-derived data in ark-serialize's readers.
 """
 from arklib import dataflow as DF
-from arklib.facts import op_local, op_place, place_parts
+from arklib.facts import op_local, op_place, place_parts, closure_args
 from rules import serflow
 
 UNITS = ["ws", "curves", "shapes"]
@@ -296,6 +296,73 @@ def check_lentype(res, facts):
                         rule.bad(key, "the length prefix is converted to %s (%s)%s: a container with 2^%d or more elements is written by the serializer but rejected by this reader, so it does not round-trip" % (dst, "integer-literal fallback of an un-annotated try_into()" if dst == "i32" else "narrower than usize", where, bits.get(dst, 64) - (1 if dst.startswith("i") else 0)), "%s (line %s)" % (h.loc, t.get("ln")))
 
 
+def check_seqsize(res, facts):
+    """every length-prefixed container goes through serialize_seq / get_serialized_size_of_seq: the writer emits the
+    length as one fixed-width integer and then every element of the iterator; the size function adds exactly the width
+    of that integer type to the sum of the element sizes"""
+    from rules.c07 import E, show
+    rule = res.rule("R-SEQSIZE", "sequence helpers: size = width of the length prefix as written + sum over all elements; writer = prefix then every element", 2)
+    fns = {f.name: f for f in facts.fns(unit="ws", crate="ark_serialize") if f.kind != "Closure" and f.name in ("serialize_seq", "get_serialized_size_of_seq") and "::impls::" in f.id}
+    w, z = fns.get("serialize_seq"), fns.get("get_serialized_size_of_seq")
+    if w is None or z is None:
+        rule.bad("ark_serialize|seq helpers", "anchor missing")
+        return
+    WIDTH = {"u8": 1, "u16": 2, "u32": 4, "u64": 8, "u128": 16}
+    sers = [(bb, t) for bb, t in w.calls() if t["f"].get("name") == "serialize_with_mode"]
+    problems = []
+    prefix_ty = None
+    if len(sers) == 1:
+        # elements written by a closure: seq.try_for_each(|item| item.serialize_with_mode(..))
+        pre = sers[0][1]
+        prefix_ty = pre["f"].get("self")
+        if prefix_ty not in WIDTH or E(w, pre["args"][0]) != ("call", "len", (("arg", 1, ()),)):
+            problems.append("the prefix written is %s of type %s, expected the iterator's len() as a fixed-width integer" % (show(E(w, pre["args"][0]))[:60], prefix_ty))
+        drivers = [(bb, t) for bb, t in w.calls() if t["f"].get("name") in ("try_for_each", "for_each") and len(t["args"]) == 2]
+        ok_el = False
+        for bb, t in drivers:
+            cl = [facts.get(c_, w.unit) for c_ in closure_args(w, t)]
+            cl = [c_ for c_ in cl if c_ is not None]
+            src = E(w, t["args"][0])
+            if cl and src == ("arg", 1, ()) and any(tt["f"].get("name") == "serialize_with_mode" and show(E(cl[0], tt["args"][0])).startswith("arg2") for _, tt in cl[0].calls()) and w.dominates(sers[0][0], bb):
+                ok_el = True
+        if not ok_el:
+            problems.append("after the prefix, the elements of the iterator are not each serialized")
+        if any(t["f"].get("name") in ("skip", "take", "step_by", "filter", "rev") for _, t in w.calls()):
+            problems.append("an adaptor changes which elements are written")
+    elif len(sers) != 2:
+        problems.append("expected the prefix and one per-element serialization, found %d serialize_with_mode calls" % len(sers))
+    else:
+        sers.sort(key=lambda x: x[0])
+        pre, el = sers[0][1], sers[1][1]
+        if not w.dominates(sers[0][0], sers[1][0]):
+            problems.append("the length prefix is not written before the elements")
+        prefix_ty = pre["f"].get("self")
+        if prefix_ty not in WIDTH or E(w, pre["args"][0]) != ("call", "len", (("arg", 1, ()),)):
+            problems.append("the prefix written is %s of type %s, expected the iterator's len() as a fixed-width integer" % (show(E(w, pre["args"][0]))[:60], prefix_ty))
+        src = E(w, el["args"][0])
+        if not (isinstance(src, tuple) and src[:3] == ("call", "next", (("arg", 1, ()),))):
+            problems.append("elements are taken from %s, not from every item of the iterator" % show(src)[:80])
+        if any(t["f"].get("name") in ("skip", "take", "step_by", "filter", "rev") for _, t in w.calls()):
+            problems.append("an adaptor changes which elements are written")
+    (rule.bad if problems else rule.ok)("ark_serialize|serialize_seq", "; ".join(problems) if problems else "len() as %s, then every element in order" % prefix_ty, w.loc)
+    problems = []
+    ret = E(z, {"c": 0})
+    K = None
+    if isinstance(ret, tuple) and ret[:2] == ("bin", "Add"):
+        ints = [x for x in ret[2:4] if isinstance(x, int)]
+        K = ints[0] if len(ints) == 1 else None
+    if K is None:
+        problems.append("the size is %s, not `constant + sum of element sizes`" % show(ret)[:100])
+    elif prefix_ty in WIDTH and K != WIDTH[prefix_ty]:
+        problems.append("the size function adds %d bytes for the length prefix, but the writer emits it as %s (%d bytes): reported size and bytes written differ for every container" % (K, prefix_ty, WIDTH[prefix_ty]))
+    txt = show(ret)
+    sizes_in = [c for c in [z] + facts.closures_of(z) if any(t["f"].get("name") == "serialized_size" for _, t in c.calls())]
+    whole = "sum(map(arg1" in txt or any(E(z, t["args"][0]) == ("arg", 1, ()) for _, t in z.calls() if t["f"].get("name") == "next")
+    if not sizes_in or not whole or any(t["f"].get("name") in ("skip", "take", "step_by", "filter") for _, t in z.calls()):
+        problems.append("the element part does not sum serialized_size over every item of the iterator")
+    (rule.bad if problems else rule.ok)("ark_serialize|get_serialized_size_of_seq", "; ".join(problems) if problems else "%s + sum of serialized_size over all items" % K, z.loc)
+
+
 def run(ctx, res):
     facts = ctx.facts(UNITS)
     res.analysed = facts.stats()
@@ -307,6 +374,7 @@ def run(ctx, res):
     check_trio(res, facts)
     check_whole(res, facts)
     check_lentype(res, facts)
+    check_seqsize(res, facts)
     return {
         "level": "other",
         "explanation": "Dataflow rules over the MIR of every CanonicalSerialize/CanonicalDeserialize impl in the workspace, the curve crates and the derive-macro output compiled in /verif/witness/shapes: mode-flag propagation, stream-length taint to allocation sinks, presence of error arms for malformed input, and agreement of writer/reader/size visiting order. Does NOT decide value equality of a round trip nor exact byte counts.",
